@@ -20,6 +20,8 @@ use std::panic::{catch_unwind, AssertUnwindSafe};
 pub enum BoundCase {
     Static(ProblemCase),
     DynamicPr(DynCase),
+    /// several queries on ONE solver object: each query has its own bound
+    Script(crate::checks::config::ConfigCase),
 }
 
 pub struct CallBound;
@@ -149,6 +151,92 @@ impl CallBound {
         Ok(())
     }
 
+    fn script(&self, case: &crate::checks::config::ConfigCase, rec: &mut Rec) -> CheckResult {
+        use crate::checks::config::{encs_of, queries_of, sem_of};
+        use crate::queries::SolverObj;
+        let encs = encs_of(case.kind);
+        let enc = encs[case.enc_pick as usize % encs.len()];
+        if case.kind == Kind::Gr || !enc_feasible(enc, &case.gc.g, &case.gc.pres) {
+            return Ok(());
+        }
+        let g = G::new(case.gc.g.n, &case.gc.g.att_usize());
+        let fams = Fams::new(&g);
+        let comps = g.components();
+        let comp_bounds: Vec<usize> = comps
+            .iter()
+            .map(|c| {
+                let (sub, _) = g.induced(*c);
+                bound_for(case.kind, enc, &Fams::new(&sub), sub.n)
+            })
+            .collect();
+        let all: usize = comp_bounds.iter().sum::<usize>().max(if comps.len() > 1 { bound_for(case.kind, enc, &fams, g.n) } else { 0 });
+        let sem = sem_of(case.kind);
+        let qs = queries_of(case.kind, enc);
+        let shared = Shared::new(usize::MAX);
+        let run = |af_u: Option<&crustabri::aa::AAFramework<usize>>, af_s: Option<&crustabri::aa::AAFramework<String>>, lu: &[usize], ls: &[String], rec: &mut Rec| -> CheckResult {
+            macro_rules! go {
+                ($af:expr, $labels:expr) => {{
+                    let mut s = SolverObj::new($af, case.kind, enc, satwrap::factory(&shared));
+                    let mut history: Vec<String> = vec![];
+                    for st in &case.script {
+                        let q = qs[st.q as usize % qs.len()];
+                        if q != Q::SE && g.n == 0 {
+                            continue;
+                        }
+                        let a = idx(st.arg, g.n.max(1));
+                        // the range-based and complete solvers answer a query without certificate inside the
+                        // component of the argument; everything else may visit every component once
+                        let own = comps.iter().position(|c| c & (1 << a) != 0).map(|i| comp_bounds[i]).unwrap_or(0);
+                        let local = q != Q::SE && !st.cert && matches!(case.kind, Kind::Sst | Kind::Stg | Kind::Co);
+                        let bound = if local { own } else { all };
+                        for _ in 0..(if st.twice { 2 } else { 1 }) {
+                            rec.eval();
+                            let before = shared.n_calls();
+                            shared.cap.set(before + bound);
+                            history.push(format!("{}{}{}", q.name(), if q == Q::SE { String::new() } else { format!("({})", a) }, if st.cert { "+cert" } else { "" }));
+                            let r = catch_unwind(AssertUnwindSafe(|| match q {
+                                Q::SE => {
+                                    s.se();
+                                }
+                                Q::DC => {
+                                    s.dc(&[&$labels[a]], st.cert);
+                                }
+                                Q::DS => {
+                                    s.ds(&[&$labels[a]], st.cert);
+                                }
+                            }));
+                            if let Err(p) = r {
+                                if p.downcast_ref::<CapExceeded>().is_some() {
+                                    return Err(Failure::new(
+                                        format!("C18/script/{:?}-solver/{}-{}/{}/more-sat-calls-than-the-bound", case.kind, q.name(), sem.name(), enc.name()),
+                                        format!("query {:?} (last of {:?}) on one solver object made more than {} SAT calls ({})", history.last(), history, bound, if local { "bound of the argument's own component" } else { "sum over all components" }),
+                                    ));
+                                }
+                                std::panic::resume_unwind(p);
+                            }
+                        }
+                    }
+                    Ok(())
+                }};
+            }
+            match (af_u, af_s) {
+                (Some(af), _) => go!(af, lu),
+                (_, Some(af)) => go!(af, ls),
+                _ => Ok(()),
+            }
+        };
+        let r = match build(&case.gc) {
+            Built::U(af, labels) => run(Some(&af), None, &labels, &[], rec),
+            Built::S(af, labels) => run(None, Some(&af), &[], &labels, rec),
+        };
+        r?;
+        rec.class("script-on-one-solver-object");
+        if comps.len() >= 3 && rec.nontrivial(&serde_json::to_string(case).unwrap()) {
+            rec.sample(|| json!({"script_on_one_solver_object": format!("{:?}", case.kind), "encoding": enc.name(), "steps": case.script.len(), "components": comps.len()}));
+        }
+        Ok(())
+    }
+
     fn dynpr(&self, case: &DynCase, rec: &mut Rec) -> CheckResult {
         let factor = FACTORS[case.factor as usize % FACTORS.len()];
         let shared = Shared::new(usize::MAX);
@@ -211,7 +299,7 @@ impl Prop for CallBound {
         "C18"
     }
     fn rule(&self) -> String {
-        "Generated (framework <=9 quick / <=11 thorough, 70% connected shapes, problem among the 21, selectable encoder, argument, certificate flag) run through a counting and recording SAT factory whose cap is the property's bound: per connected component PR <= |base|+|PR|+1, ID <= 2|base|+|PR|+2, SST/STG <= (n+2)|base|+3, CO/ST <= 2, with base = the family the selected encoder characterises (complete; admissible for SE-PR with the admissibility encoder; conflict-free for STG), all counted by brute force; multi-component frameworks: the sum over components (or the bound of the framework as one piece, whichever is larger). The query is aborted at bound+1 calls, so a lost blocking clause shows as a violation instead of a hang. On connected frameworks the models returned on one solver instance, projected on the argument variables, must be pairwise distinct for PR and occur at most twice for ID. Dynamic preferred solver: every DS query of a generated history stays within |CO|+|PR|+1 calls for the current framework. The answer of every run is also checked against the reference. Non-trivial: |base| >= 3 and >= 2 preferred extensions or maximal ranges; distinct = case.".into()
+        "Generated (framework <=9 quick / <=11 thorough, 70% connected shapes, problem among the 21, selectable encoder, argument, certificate flag) run through a counting and recording SAT factory whose cap is the property's bound: per connected component PR <= |base|+|PR|+1, ID <= 2|base|+|PR|+2, SST/STG <= (n+2)|base|+3, CO/ST <= 2, with base = the family the selected encoder characterises (complete; admissible for SE-PR with the admissibility encoder; conflict-free for STG), all counted by brute force; multi-component frameworks: the sum over components (or the bound of the framework as one piece, whichever is larger). The query is aborted at bound+1 calls, so a lost blocking clause shows as a violation instead of a hang. On connected frameworks the models returned on one solver instance, projected on the argument variables, must be pairwise distinct for PR and occur at most twice for ID. Dynamic preferred solver: every DS query of a generated history stays within |CO|+|PR|+1 calls for the current framework. Scripts of 3-12 queries on ONE solver object (generator of C06): every query has its own bound (its argument's component for SST/STG/CO queries without certificate, the sum over components otherwise), so work carried over from earlier queries shows. The answer of every run is also checked against the reference. Non-trivial: |base| >= 3 and >= 2 preferred extensions or maximal ranges; distinct = case.".into()
     }
     fn assumptions(&self) -> Vec<String> {
         vec![
@@ -242,7 +330,8 @@ impl Prop for CallBound {
             });
         let dynpr = (0u8..FACTORS.len() as u8, vec(dynamic::op_strategy(false), 5..=maxlen))
             .prop_map(|(factor, ops)| BoundCase::DynamicPr(DynCase { kind: DynKind::Pr, factor, ops }));
-        prop_oneof![85 => stat, 15 => dynpr].boxed()
+        let script = crate::checks::config::Config.small_strategy(tier).prop_map(BoundCase::Script);
+        prop_oneof![70 => stat, 15 => dynpr, 15 => script].boxed()
     }
     fn n_cases(&self, tier: Tier) -> u32 {
         tier.pick(300_000, 5_000_000)
@@ -251,6 +340,7 @@ impl Prop for CallBound {
         match case {
             BoundCase::Static(pc) => self.stat(pc, rec),
             BoundCase::DynamicPr(dc) => self.dynpr(dc, rec),
+            BoundCase::Script(sc) => self.script(sc, rec),
         }
     }
 }
